@@ -39,6 +39,22 @@ func InterruptWidePart(run *report.Run, st *Setup, n int) {
 			}
 			prev = cur
 		}
+		// every fourth case: very many quick targets, interrupted on a terminal (the interactive
+		// UI has its own signal handling and a bounded status channel that somebody must drain)
+		manyOnTTY := i%4 == 3 && grog.PtyAvailable()
+		if manyOnTTY {
+			workers = 2
+			s = &spec.Spec{Files: map[string]string{}}
+			for w := 0; w < r.Range(140, 220); w++ {
+				t := &spec.Target{Pkg: "w", Name: fmt.Sprintf("q%d", w), SleepMs: r.Range(15, 40)}
+				t.Inputs = []string{fmt.Sprintf("qin%d.txt", w)}
+				s.Files["w/"+t.Inputs[0]] = r.Word(3, 10)
+				t.Outs = []spec.Out{{Kind: "file", Path: t.Name + ".out"}}
+				s.Targets = append(s.Targets, t)
+			}
+			width, layers = len(s.Targets), 1
+			run.Count("wide_builds_interrupted_on_a_terminal(>=140 quick targets)", 1)
+		}
 		gcfg := grog.Config{NumWorkers: workers, FailFast: r.Chance(1, 3)}
 		env, err := NewEnv(st.Base, fmt.Sprintf("iw%d", i), st.Grog, st.Vctl, s, gcfg)
 		if err != nil {
@@ -61,12 +77,20 @@ func InterruptWidePart(run *report.Run, st *Setup, n int) {
 			run.Infra(err.Error())
 			return
 		}
-		res := env.M.Run([]string{"build"}, grog.RunOpts{Build: "b1", Timeout: 30 * time.Second, Env: []string{"GROG_VERIF_PLAN=" + plan}})
+		res := env.M.Run([]string{"build"}, grog.RunOpts{Build: "b1", Timeout: 30 * time.Second, Env: []string{"GROG_VERIF_PLAN=" + plan}, Pty: manyOnTTY})
 		run.Eval(1)
 		run.Count("wide_builds_interrupted", 1)
 		evs := ReadHookLog(hookLog)
 		observed, begun, ended := false, 0, 0
+		sent, begunAfterSend := false, 0
 		for _, ev := range evs {
+			if ev.Kind == "action" && ev.Name == "sig" {
+				sent = true // the signal was raised (whether or not grog's handler ever saw it)
+				continue
+			}
+			if sent && ev.Name == "pool.task.begin" {
+				begunAfterSend++
+			}
 			switch ev.Name {
 			case "signal.cancelled":
 				observed = true
@@ -87,6 +111,11 @@ func InterruptWidePart(run *report.Run, st *Setup, n int) {
 			return
 		}
 		if res.TimedOut {
+			if sent && !observed && res.Hang {
+				replay["goroutines"] = tail(res.Dump, 6000)
+				keep = !run.Violation("hang-after-interrupt signal-never-handled "+hangSite(res.Dump), fmt.Sprintf("%s was raised (after the %d-th %s), grog never cancelled the build and was quiescent but still running when the 30 s cap fired (terminal: %v)", sig, hit, point, manyOnTTY), replay) || keep
+				return
+			}
 			if observed && res.Hang {
 				replay["goroutines"] = tail(res.Dump, 6000)
 				keep = !run.Violation("hang-after-interrupt "+hangSite(res.Dump), fmt.Sprintf("grog had observed %s (after the %d-th %s) and was quiescent but still running when the 30 s cap fired; %d targets, %d workers", sig, hit, point, len(s.Targets), workers), replay) || keep
@@ -97,6 +126,10 @@ func InterruptWidePart(run *report.Run, st *Setup, n int) {
 		}
 		if !observed {
 			run.Count("signal_not_observed", 1)
+			// raised but never handled: the build must not simply carry on and report success
+			if sent && res.Exit == 0 && begunAfterSend > 2*workers+4 {
+				keep = !run.Violation("signal-ignored exit-zero", fmt.Sprintf("%s was raised inside the process after the %d-th %s; %d further tasks were started afterwards and grog exited 0 (terminal: %v)", sig, hit, point, begunAfterSend, manyOnTTY), replay) || keep
+			}
 			return
 		}
 		run.Count("wide_builds_interrupted_with_signal_observed", 1)
